@@ -32,7 +32,10 @@ META = {
             "the Lean Print of the built tree equals mj_printSchema. Oracle: every valid document derived from mjcf.schema (the "
             "tree's own parser) must not be rejected with a schema-type message; every single-violation mutant (unknown "
             "attribute/element, duplicated unique child, broken presence constraint, bad enum keyword, non-numeric token, "
-            "wrong arity, bad bool) must be rejected; every call returns a spec/model or NULL with a non-empty message.",
+            "wrong arity, bad bool) must be rejected; for every element with presence constraints EVERY violating presence "
+            "pattern of the attributes the constraints mention (all subsets, so also partially present bundles) is in the "
+            "differential and must be rejected; every call returns a spec/model or NULL with a non-empty message; a process "
+            "death is attributed to the one document it happened on (re-run alone in a fresh process) and reported.",
     "note": "TRUSTED BASE ADDITION: src/xml is compiled against harness/stubs/tinyxml2 (a minimal re-implementation of the "
             "tinyxml2 DOM API written for this framework, NOT tinyxml2). XML tokenisation, entity handling, line numbers and "
             "parse errors seen by the reader are the stand-in's. The clause 'never crashes / no undefined behaviour for any byte "
@@ -515,6 +518,85 @@ def systematic_mutants(rng, g, paths):
     return out
 
 
+def presence_pattern_mutants(rng, g, paths, max_attrs=8):
+    """EVERY presence pattern of the attributes that an element's presence constraints mention (all 2^k subsets, k <= max_attrs;
+    beyond that: singletons, pairs and complements of singletons), kept when it violates at least one constraint.  `violate`
+    produces one shape per constraint; the patterns it cannot produce are the ones where a multi-attribute bundle is only
+    PARTIALLY present while no other constraint of the element objects (e.g. oneof a+b c+d with c alone), and the
+    combinations of several constraints over shared attributes."""
+    import itertools
+    mujoco = g.s.elements["mujoco"]
+    out = []
+    for key, path in paths.items():
+        decl, project = (path[-1][0], path[-1][1]) if path else (mujoco, False)
+        cons, _ = g.constraints(decl, project)
+        names = []
+        for c in cons:
+            for b in c.bundles:
+                for n in b:
+                    if n not in names:
+                        names.append(n)
+        if not names:
+            continue
+        if len(names) <= max_attrs:
+            subsets = [s for r in range(len(names) + 1) for s in itertools.combinations(names, r)]
+        else:
+            subsets = [()] + [(n,) for n in names] + list(itertools.combinations(names, 2)) + \
+                      [tuple(m for m in names if m != n) for n in names]
+        adecl = {a.name: a for a in g.attrs(decl, project)}
+        for sub in subsets:
+            broken = [c for c in cons if not con_holds(c, set(sub))]
+            if not broken:
+                continue
+            gen = DocGen(rng, g, 0)
+            root = gen.element(mujoco, False, 0, p_attr=0.0, path=path)
+            if root is None:
+                break
+            leaf, anc = root, []
+            while leaf.kids:
+                anc.append(leaf)
+                leaf = leaf.kids[0]
+            leaf.attrs = [(n, v) for n, v in leaf.attrs if n not in names] + \
+                         [(n, gen.value(adecl[n], force=True) or "x") for n in sub]
+            out.append((root, {"kind": "break-constraint", "where": "/".join([a.tag for a in anc] + [leaf.tag]),
+                               "in_alias": any(a.tag in ALIAS for a in anc) or leaf.tag in ALIAS,
+                               "constraint": "; ".join("%s %s" % (c.kind, c.bundles) for c in broken),
+                               "present": list(sub), "sweep": "presence-pattern"}))
+    return out
+
+
+def run_isolating(ctx, impl, lines, max_restarts=8):
+    """The op lines through the implementation, one process; when the process dies, the line it died on is run again ALONE
+    in a fresh process (the crash is an observation about one concrete input, not the end of the run) and the remaining
+    lines continue in a new process.  Returns (outputs -- None for a line the process died on or never reached --,
+    crashes = [{index, rc, stderr, alone}])."""
+    outs, crashes, start = [], [], 0
+    while start < len(lines):
+        rc, out, err = ctx.run_lines([impl], lines[start:])
+        out = out[:len(lines) - start]
+        outs += out
+        if len(out) == len(lines) - start:
+            break
+        i = start + len(out)
+        rc1, out1, err1 = ctx.run_lines([impl], [lines[i]])
+        alone = not out1
+        crashes.append({"index": i, "rc": rc1 if alone else rc, "stderr": (err1 if alone else err)[-400:], "alone": alone})
+        outs.append(None)
+        start = i + 1
+        if len(crashes) >= max_restarts:
+            outs += [None] * (len(lines) - start)
+            break
+    return outs, crashes
+
+
+def crash_class(stderr):
+    m = re.search(r"throwing an instance of '([^']+)'", stderr)
+    if m:
+        return m.group(1)
+    m = re.search(r"(AddressSanitizer: [a-z-]+|runtime error|Segmentation fault|Aborted|Assertion)", stderr)
+    return m.group(1).replace(" ", "-") if m else "died"
+
+
 def mutate(rng, g, root, kind):
     """returns (mutated root, description dict) or None"""
     root = copy.deepcopy(root)
@@ -725,14 +807,19 @@ def _run(ctx):
     for d in valid:
         d["text"] = render(d["root"])
     # which valid documents does the real reader accept? (mutants are derived from accepted ones only)
-    _, out, err = ctx.run_lines([impl], ["doc " + d["text"].encode().hex() for d in valid])
-    if len(out) != len(valid):
-        ctx.oracle_failure("c37:crash-on-valid-document", "the reader process died on a schema-derived document: " + err[-300:],
-                           {"documents": [d["text"] for d in valid[max(0, len(out) - 1):len(out) + 1]]})
-        return
+    out, crashes = run_isolating(ctx, impl, ["doc " + d["text"].encode().hex() for d in valid])
+    for cr in crashes:
+        d = valid[cr["index"]]
+        ctx.oracle_failure("c37:crash-on-valid-document:" + crash_class(cr["stderr"]),
+                           "the reader process died (rc=%d) on a schema-derived document instead of returning a spec/model or "
+                           "NULL with a message: %s" % (cr["rc"], cr["stderr"].strip()[-300:]),
+                           {"xml": d["text"], "how": d["desc"], "reproduces_alone_in_a_fresh_process": cr["alone"],
+                            "previous_document": None if cr["alone"] or not cr["index"] else valid[cr["index"] - 1]["text"]})
     accepted = []
     sem = {}
     for d, o in zip(valid, out):
+        if o is None:
+            continue
         f = dict(x.split("=", 1) for x in o.split(" ")[1:])
         d["p"], d["l"], d["perr"], d["lerr"] = int(f["p"]), int(f["l"]), hx(f["perr"]), hx(f["lerr"])
         ctx.count(("valid", json.dumps(d["desc"], sort_keys=True) if d["desc"] else d["text"]))
@@ -753,7 +840,7 @@ def _run(ctx):
             sem[k] = sem.get(k, 0) + 1
     nrand = len([d for d in valid if not d["desc"]])
     ctx.extra["valid_documents"] = {"generated": len(valid), "random": nrand, "random_accepted_by_parse": len(accepted),
-                                    "compiled_by_loadXML": sum(d["l"] for d in valid),
+                                    "compiled_by_loadXML": sum(d.get("l", 0) for d in valid),
                                     "rejected_for_non_schema_reasons": sem}
     ctx.oblige("at least half of the random schema-derived valid documents are accepted by mj_parseXMLString (%d of %d)"
                % (len(accepted), nrand), "generator-coverage", len(accepted) * 2 >= nrand, json.dumps(sem))
@@ -773,6 +860,11 @@ def _run(ctx):
     for root, desc in systematic_mutants(rng, g, paths):
         docs.append({"root": root, "kind": desc["kind"], "desc": desc, "text": render(root)})
         kinds_hist["sweep:" + desc["kind"]] = kinds_hist.get("sweep:" + desc["kind"], 0) + 1
+    # every violating presence pattern of the attributes named by an element's presence constraints (drawn after the older
+    # generators so that their per-seed samples stay what they were)
+    for root, desc in presence_pattern_mutants(rng, g, paths):
+        docs.append({"root": root, "kind": desc["kind"], "desc": desc, "text": render(root)})
+        kinds_hist["sweep:presence-pattern"] = kinds_hist.get("sweep:presence-pattern", 0) + 1
     # the canonical witness of the frame/replicate hole, always present
     for txt, desc in [('<mujoco>\n<worldbody>\n<frame>\n<geom size="1" zzbogus="2"/>\n</frame>\n</worldbody>\n</mujoco>\n',
                        {"kind": "unknown-attr", "where": "mujoco/worldbody/frame/geom", "in_alias": True, "attr": "zzbogus"}),
@@ -813,13 +905,24 @@ def _run(ctx):
 
     # --- oracle on the mutants
     muts = [d for d in docs if d["kind"] != "valid"]
-    _, out, err = ctx.run_lines([impl], ["doc " + d["text"].encode().hex() for d in muts])
-    if len(out) != len(muts):
-        ctx.oracle_failure("c37:crash-on-mutant", "the reader process died on a mutated document: " + err[-300:],
-                           {"documents": [d["text"] for d in muts[max(0, len(out) - 1):len(out) + 1]]})
-        return
+    out, crashes = run_isolating(ctx, impl, ["doc " + d["text"].encode().hex() for d in muts])
+    for cr in crashes:
+        d = muts[cr["index"]]
+        ctx.oracle_failure("c37:crash-on-mutant:%s:%s:%s" % (d["kind"], (d["desc"].get("where") or "?").split("/")[-1],
+                                                             crash_class(cr["stderr"])),
+                           "the reader process died (rc=%d) on a document with a schema violation (%s at %s%s) instead of "
+                           "returning NULL with a message: %s"
+                           % (cr["rc"], d["kind"], d["desc"].get("where"),
+                              ", attributes present: %s, violated: %s" % (d["desc"]["present"], d["desc"].get("constraint"))
+                              if "present" in d["desc"] else "", cr["stderr"].strip()[-300:]),
+                           {"xml": d["text"], "mutation": d["desc"], "reproduces_alone_in_a_fresh_process": cr["alone"],
+                            "previous_document": None if cr["alone"] or not cr["index"] else muts[cr["index"] - 1]["text"],
+                            "how": "harness/cc/c37_schema.cc, one line 'doc <hex of xml>' on stdin (mj_parseXMLString, then "
+                                   "mj_loadXML through a VFS)"})
     nrej = 0
     for d, o in zip(muts, out):
+        if o is None:
+            continue
         f = dict(x.split("=", 1) for x in o.split(" ")[1:])
         d["p"], d["l"], d["perr"], d["lerr"] = int(f["p"]), int(f["l"]), hx(f["perr"]), hx(f["lerr"])
         ctx.count(("oracle", d["kind"], d["desc"].get("where"), d["desc"].get("attr")))
@@ -864,6 +967,15 @@ def _run(ctx):
     def directed(c):
         # a broken tie with no oracle failure: look for a document on which the real reader and the declarative
         # expectation disagree among the disagreeing inputs themselves
+        for dg in c.disagreements:
+            if (dg.get("impl") or "").startswith("<crash"):
+                # the real reader died inside the differential stream: the line alone, in a fresh process
+                rc1, out1, err1 = c.run_lines([impl], [dg["line"]])
+                if not out1:
+                    txt = hx(dg["line"].split(" # ")[1]) if " # " in dg["line"] else dg["line"][:2000]
+                    return {"key": "c37:crash-in-parse:" + crash_class(err1), "what": "mj_parseXMLString does not return on this "
+                            "document (process died, rc=%d): %s; the model of mjXSchema::Check says: %s"
+                            % (rc1, err1.strip()[-300:], dg.get("model")), "replay": {"xml": txt}}
         for dg in c.disagreements:
             if dg.get("impl", "").startswith("ok") and dg.get("model", "").startswith("err"):
                 return {"key": "c37:model-rejects-real-accepts", "what": "the real reader accepts a document the model of "
